@@ -24,8 +24,9 @@
 //   scanfilter b | scanreq hex   scan_request_filter; is_scan_request_in_filter( ScanA, TxAdd ) -> `f=<in filter>`
 //   recv hex           handle_adv_receive on an exactly sized heap copy of the PDU (header + body)
 //   recvfull hex       same, PDU copied into the 36 byte advertising_receive_buffer (as the nRF radio does)
-// output: `ok` or `- | s <channel> <delay us>` for scheduling ops, prefixed by `acc <remote> ` / `rej `
-// for recv ops.
+// output: `ok` or `- | s <channel> <delay us> t<advertising PDU type>` for scheduling ops (PDU type: 0 ADV_IND,
+// 1 ADV_DIRECT_IND, 2 ADV_NONCONN_IND, 6 ADV_SCAN_IND, read from the PDU handed to the radio), prefixed by
+// `acc <remote> ` / `rej ` for recv ops.
 #include "common/proto.hpp"
 #include <cassert>
 #include <bluetoe/advertising.hpp>
@@ -63,6 +64,7 @@ struct sched_t
     bool     valid;
     unsigned channel;
     unsigned long long delay_us;
+    unsigned pdu_type;      // type of the advertising PDU handed to the radio (lower 4 bits of its header)
 };
 
 template < typename ... Options >
@@ -94,6 +96,7 @@ struct mock_ll :
         last_.valid    = true;
         last_.channel  = channel;
         last_.delay_us = when.usec();
+        last_.pdu_type = adv.buffer[ 0 ] & 0x0f;
     }
 
     device_address address_;
@@ -220,7 +223,7 @@ int main()
         const auto sched = [&]() -> std::string {
             const sched_t s = a->take();
             if ( !s.valid ) return "-";
-            return "s " + std::to_string( s.channel ) + " " + std::to_string( s.delay_us );
+            return "s " + std::to_string( s.channel ) + " " + std::to_string( s.delay_us ) + " t" + std::to_string( s.pdu_type );
         };
         const std::string& op = w[ 0 ];
         if ( op == "reset" && has_arg ) { auto n = make( v ); if ( !n ) return "bad-op"; a = std::move( n ); return "ok"; }
